@@ -3,13 +3,21 @@
    writes complete reply lines (channel id + payload bound to the request it saw on that channel), possibly in any
    order and fragmentation.  Outcome(k): what the transaction of request k did with the reply. *)
 EXTENDS Naturals, FiniteSets
-VARIABLES chanOf, answered
-pvars == <<chanOf, answered>>
-PInit == chanOf = <<>> /\ answered = {}
+VARIABLES chanOf, answered, verdict
+pvars == <<chanOf, answered, verdict>>
+PInit == chanOf = <<>> /\ answered = {} /\ verdict = <<>>
 Ext(f, k, v) == [x \in DOMAIN f \cup {k} |-> IF x = k THEN v ELSE f[x]]
-HRecv(chan, k) == chanOf' = Ext(chanOf, k, chan) /\ UNCHANGED answered
+HRecv(chan, k) == chanOf' = Ext(chanOf, k, chan) /\ UNCHANGED <<answered, verdict>>
 \* the helper has written the complete reply lines for these requests
-HDone(ks) == answered' = answered \cup ks /\ UNCHANGED chanOf
+HDone(ks) == answered' = answered \cup ks /\ UNCHANGED <<chanOf, verdict>>
+\* external ACL lookups: the helper has written verdict v ("OK"/"ERR") as its complete reply to the query line q
+HVerdict(q, v) == verdict' = Ext(verdict, q, v) /\ UNCHANGED <<chanOf, answered>>
+\* An access decision that depends on several lookups is explained by the replies to its own queries: alts = the alternative
+\* sets of (query, verdict) facts that produce the observed decision; one of them must consist of replies the helper really
+\* gave to exactly those query lines.  A verdict taken from the reply to another query (or to no query) explains nothing.
+Decided(alts) ==
+  /\ \E i \in DOMAIN alts : \A j \in DOMAIN alts[i] : alts[i][j].q \in DOMAIN verdict /\ verdict[alts[i][j].q] = alts[i][j].v
+  /\ UNCHANGED pvars
 \* kind: "rw" = the request went out rewritten with the payload of request k2's reply; "orig" = it went out unchanged;
 \* "lost" = it never completed (timeout); "err" = Squid answered with an error
 Outcome(k, kind, k2) ==
